@@ -214,6 +214,11 @@ impl<K: El, V: El> Mon<K, V> {
                         }
                     }
                 }
+                {
+                    let dbg = format!("{:?}", it);
+                    let rest: Vec<(u64, u64)> = want.iter().filter(|(kk, _)| !seen.contains_key(kk)).map(|(kk, s)| (*kk, s.pay)).collect();
+                    check_iter_debug("into_iter", &dbg, rest)?;
+                }
                 drop(it);
                 for (kk, (kid, pay, vid)) in &seen {
                     match want.get(kk) {
@@ -566,6 +571,8 @@ impl<K: El, V: El> Mon<K, V> {
                     check_len("iter", it.len(), it.size_hint(), 0)?;
                 }
                 if let Some((c, at)) = cloned {
+                    let dbg = format!("{:?}", c);
+                    check_iter_debug("iter", &dbg, got[at..].iter().map(|g| (g.0, g.2)).collect())?;
                     let rest: Vec<(u64, u64, u64, u64)> = c.map(|(kk, v)| (kk.val(), kk.id(), v.val(), v.id())).collect();
                     if rest[..] != got[at..] {
                         viol!("C08", "an iterator cloned after {} steps yielded {:?}, the original continued with {:?}", at, abbreviate(&rest), abbreviate(&got[at..]));
@@ -639,6 +646,13 @@ impl<K: El, V: El> Mon<K, V> {
                 let mut n = 0;
                 loop {
                     check_len("iter_mut", it.len(), it.size_hint(), total - n)?;
+                    if n == total / 2 {
+                        let dbg = format!("{:?}", it);
+                        match parse_debug_pairs(&dbg) {
+                            Some(p) if p.len() == total - n => {}
+                            _ => viol!("C08", "iter_mut: Debug of the iterator does not list the {} elements still to come: {}", total - n, abbreviate_str(&dbg)),
+                        }
+                    }
                     match it.next() {
                         None => break,
                         Some((kk, v)) => {
@@ -726,6 +740,11 @@ impl<K: El, V: El> Mon<K, V> {
                         viol!("C08", "drain yielded an element after exhaustion");
                     }
                 }
+            }
+            {
+                let dbg = format!("{:?}", it);
+                let rest: Vec<(u64, u64)> = want.iter().filter(|(kk, _)| !seen.contains_key(kk)).map(|(kk, s)| (*kk, s.pay)).collect();
+                check_iter_debug("drain", &dbg, rest)?;
             }
             if forget {
                 // leak-by-design: whatever the iterator still owned is never dropped
@@ -1153,6 +1172,36 @@ pub fn parse_debug_map(s: &str) -> Option<Vec<(u64, u64)>> {
     }
     Some(v)
 }
+/// Parse `[(1, 2), (3, 4)]`.
+pub fn parse_debug_pairs(s: &str) -> Option<Vec<(u64, u64)>> {
+    let s = s.trim().strip_prefix('[')?.strip_suffix(']')?;
+    let mut v = Vec::new();
+    if s.trim().is_empty() {
+        return Some(v);
+    }
+    for item in s.split("), (") {
+        let item = item.trim_start_matches('(').trim_end_matches(')');
+        let (a, b) = item.split_once(", ")?;
+        v.push((a.trim().parse().ok()?, b.trim().parse().ok()?));
+    }
+    Some(v)
+}
+
+/// The Debug output of a partly consumed iterator must list exactly what is still to come.
+pub fn check_iter_debug(what: &str, dbg: &str, mut rest: Vec<(u64, u64)>) -> Res<()> {
+    match parse_debug_pairs(dbg) {
+        None => viol!("C08", "{what}: Debug output of the iterator is not a list of pairs: {}", abbreviate_str(dbg)),
+        Some(mut p) => {
+            p.sort_unstable();
+            rest.sort_unstable();
+            if p != rest {
+                viol!("C08", "{what}: Debug of the iterator lists {:?}, still to come are {:?}", abbreviate(&p), abbreviate(&rest));
+            }
+        }
+    }
+    Ok(())
+}
+
 /// Parse `{1, 2}`.
 pub fn parse_debug_set(s: &str) -> Option<Vec<u64>> {
     let s = s.trim().strip_prefix('{')?.strip_suffix('}')?;
